@@ -116,7 +116,7 @@ func callIntrinsic(fr *frame, fn *ssa.Function, args []value) value {
 		// interference: another thread stored (k, v) into the sync.Map unless the key is present
 		m := args[0].(*value)
 		for _, e := range syncMaps[m] {
-			if equals(nil, e.k, args[1]) {
+			if syncKeyEq(e.k, args[1]) {
 				return false
 			}
 		}
